@@ -222,6 +222,32 @@ def rowOk (S : Sig) (P : Prog) (r : String × String × String × String) : Bool
     EVERY receiver type, also a type parameter instantiated at run time -/
 def implsOk (S : Sig) (P : Prog) : Bool := namesOk S && P.impls.all (rowOk S P)
 
+/-! ### trait objects -/
+
+mutual
+def noSelf : Ty → Bool
+  | .struct n => !(n == "Self")
+  | .tuple ts => noSelfs ts
+  | .app t args => noSelf t && noSelfs args
+  | .array _ e => noSelf e
+  | .vec e => noSelf e
+  | .ref e => noSelf e
+  | .func ps r => noSelfs ps && noSelf r
+  | _ => true
+def noSelfs : List Ty → Bool
+  | [] => true
+  | t :: ts => noSelf t && noSelfs ts
+end
+
+/-- object safety of `tr::m` as far as the dynamic call needs it: `Self` is the first parameter and occurs nowhere else -/
+def objSafe (S : Sig) (tr m : String) : Bool :=
+  match S.traits.find? (·.name == tr) with
+  | some d =>
+    (match lookupTy d.methods m with
+     | some (.func (s :: ps) r) => isSelf s && noSelfs ps && noSelf r
+     | _ => false)
+  | none => false
+
 mutual
 def okE (S : Sig) (P : Prog) (rf : Bool) (Γ : TyEnv) (K : Know) : Expr → Bool
   | .var x ty => (lookupVar Γ x).isSome || fnValOk P x ty
@@ -255,8 +281,8 @@ def okE (S : Sig) (P : Prog) (rf : Bool) (Γ : TyEnv) (K : Know) : Expr → Bool
             (polyOk fn (getTys args) ty || (rf && refOk fn (getTys args) ty))
         | _ => false) ||
        (okE S P rf Γ K f && tyBeq (getTy f) (.func (getTys args) ty)))
-  | .toDyn _ _ _ _ => false
-  | .dynCall _ _ _ _ _ => false
+  | .toDyn _ forTy _ e => rf && okE S P rf Γ K e && keyable S forTy
+  | .dynCall tr m _ recv args => rf && okE S P rf Γ K recv && okL S P rf Γ K args && implsOk S P && objSafe S tr m
   | .traitCall tr m ty recv args =>
     okE S P rf Γ K recv && okL S P rf Γ K args &&
       ((concreteTy (getTy recv) && dispatchOk P tr m (getTy recv) (getTys args) ty) || implsOk S P)
@@ -361,8 +387,13 @@ partial def whyE (S : Sig) (P : Prog) (rf : Bool) (Γ : TyEnv) (K : Know) : Expr
          else none
        | _ => whyE S P rf Γ K f).orElse fun _ =>
         if !tyBeq (getTy f) (.func (getTys args) ty) then some "call:annotation-vs-arguments" else none
-  | .toDyn _ _ _ _ => some "todyn"
-  | .dynCall _ _ _ _ _ => some "dyncall"
+  | .toDyn _ forTy _ e =>
+    if !rf then some "todyn" else
+    (whyE S P rf Γ K e).orElse fun _ => if keyable S forTy then none else some ("todyn:source-type-" ++ tyClass forTy)
+  | .dynCall tr m _ recv args =>
+    if !rf then some "dyncall" else
+    (whyE S P rf Γ K recv).orElse fun _ => (whyL S P rf Γ K args).orElse fun _ =>
+      if !implsOk S P then some "dyncall:dispatch-table" else if !objSafe S tr m then some "dyncall:self-outside-receiver" else none
   | .traitCall tr m ty recv args =>
     (whyE S P rf Γ K recv).orElse fun _ => (whyL S P rf Γ K args).orElse fun _ =>
       if implsOk S P then none
